@@ -1,5 +1,181 @@
-import Driver.Common
-/-! Driver for C01 (stub: not built yet). -/
-def main (_args : List String) : IO UInt32 := do
-  IO.eprintln "C01: driver not implemented"
-  return 2
+import Driver.CodecLines
+import CoapVerif.Model.PoolMessage
+/-! Driver for C01: `model` replays the line protocol on Model/{OptionCodec,UdpCoder,TcpCoder,PoolMessage};
+`judge` evaluates Spec/CodecJudge on `input => observed output`. -/
+namespace Driver.C01
+open CoapVerif.Spec.Wire CoapVerif.Spec.CodecJudge Driver.Codec
+open CoapVerif.Model CoapVerif.Model.OptionCodec CoapVerif.Model.PoolMessage
+
+def coderOf : Framing → Coder
+  | .udp => .udp
+  | .tcp => .tcp
+
+def intToU64 (n : Int) : UInt64 := if n ≥ 0 then n.toNat.toUInt64 else (0 : UInt64) - (-n).toNat.toUInt64
+
+def errCode (k : String) : UInt64 := if k = "ok" then 0 else if k = "tooSmall" then 1 else 2
+
+/-- One `Encode` into a window of `cap` fill bytes: (n, err, contents). -/
+def encOnce (c : Coder) (m : Msg) (cap : Nat) : Int × String × Bytes :=
+  let buf := List.replicate cap fill
+  match c.encode m buf with
+  | .ok r => ((r.n : Int), (if r.tooSmall then "tooSmall" else "ok"), r.buf)
+  | .error e => (-1, e.toString, buf)
+
+def canonTcp (f : Framing) (m : Msg) : Msg :=
+  match f with
+  | .udp => m
+  | .tcp => { m with typ := 0, mid := 0 }
+
+def fmtDec (f : Framing) (r : Except Err (Msg × Nat)) : String :=
+  match r with
+  | .ok (m, n) => s!"dec {n} ok {fmtMsg (canonTcp f m)}"
+  | .error e => s!"dec -1 {e.toString} -"
+
+def modelLine (fields : List String) : String :=
+  match fields with
+  | "size" :: c :: r =>
+    match parseCoder? c, parseMsg? r with
+    | some f, some (m, _) =>
+      match (coderOf f).size m with
+      | .ok n => s!"size {n} ok"
+      | .error e => s!"size -1 {e.toString}"
+    | _, _ => "bad-op"
+  | "enc" :: c :: cap :: r =>
+    match parseCoder? c, cap.toNat?, parseMsg? r with
+    | some f, some cap, some (m, _) =>
+      let (n, e, b) := encOnce (coderOf f) m cap
+      s!"enc {n} {e} {Driver.toHex b} ok"
+    | _, _, _ => "bad-op"
+  | "encall" :: c :: r =>
+    match parseCoder? c, parseMsg? r with
+    | some f, some (m, _) =>
+      match (coderOf f).size m with
+      | .error e => s!"encall -1 {e.toString} 0 0 0 - -"
+      | .ok size => Id.run do
+        let mut h := Driver.fnvInit
+        let mut nsz := 0
+        let mut nclean := 0
+        let mut full := "-"
+        for cap in [0:size + 1] do
+          let (n, e, b) := encOnce (coderOf f) m cap
+          h := Driver.fnvMix (Driver.fnvMix h (intToU64 n)) (errCode e)
+          for x in b do
+            h := Driver.fnvMix h x.toUInt64
+          if cap < size then
+            if n = (size : Int) ∧ e = "tooSmall" then nsz := nsz + 1
+            if b.all (· == fill) then nclean := nclean + 1
+          else
+            full := s!"{n} {e} {Driver.toHex b}"
+        return s!"encall {size} ok {nsz} {size + 1} {nclean} {Driver.hex64 h} {full}"
+    | _, _ => "bad-op"
+  | "rt" :: c :: cap :: r =>
+    match parseCoder? c, cap.toNat?, parseMsg? r with
+    | some f, some cap, some (m, _) =>
+      match (coderOf f).size m with
+      | .error e => s!"rt -1 {e.toString} -"
+      | .ok size =>
+        match (coderOf f).encode m (List.replicate size 0) with
+        | .error e => s!"rt -1 {e.toString} -"
+        | .ok res =>
+          if res.tooSmall then s!"rt {res.n} tooSmall -"
+          else
+            let wire := res.buf.take res.n
+            s!"rt {res.n} ok {Driver.toHex wire} | {fmtDec f ((coderOf f).decode cap wire)}"
+    | _, _, _ => "bad-op"
+  | "pool" :: c :: kind :: cap :: r =>
+    match parseCoder? c, cap.toNat?, parseMsg? r with
+    | some f, some cap, some (m, _) =>
+      let src : PoolMsg := { newMessage with msg := m }
+      match marshalWithEncoder (coderOf f) src with
+      | .error e => s!"pool {e.toString} -"
+      | .ok (wire, _) =>
+        let dst : PoolMsg := if kind = "recycled" then { newMessage with optCap := cap } else newMessage
+        match unmarshalWithDecoderN (coderOf f) dst wire with
+        | .error e => s!"pool ok {Driver.toHex wire} | dec -1 {e.toString} -"
+        | .ok (n, st) => s!"pool ok {Driver.toHex wire} | dec {n} ok {fmtMsg (canonTcp f st.msg)}"
+    | _, _, _ => "bad-op"
+  | _ => "bad-op"
+
+/-- `judge`: fields of the input line, fields of the observed output line. -/
+def judgeLine (inp out : List String) : String :=
+  match out with
+  | "panic" :: _ => "violates no-crash"
+  | "hang" :: _ => "violates bounded-time"
+  | _ =>
+  match inp, out with
+  | "size" :: c :: r, ["size", n, err] =>
+    match parseCoder? c, parseMsg? r, Driver.parseInt? n with
+    | some f, some (m, _), some n => (judgeSize f m n err).toString
+    | _, _, _ => "bad-op"
+  | "enc" :: c :: cap :: r, ["enc", n, err, buf, can] =>
+    match parseCoder? c, cap.toNat?, parseMsg? r, Driver.parseInt? n, Driver.parseHex? buf with
+    | some f, some cap, some (m, _), some n, some buf =>
+      (judgeEnc f m cap fill ⟨n, err, buf, can == "ok"⟩).toString
+    | _, _, _, _, _ => "bad-op"
+  | "encall" :: c :: r, "encall" :: size :: err :: nsz :: ncan :: _nclean :: _dig :: full =>
+    match parseCoder? c, parseMsg? r, Driver.parseInt? size, nsz.toNat?, ncan.toNat? with
+    | some f, some (m, _), some size, some nsz, some ncan =>
+      let fo : Option EncObs :=
+        match full with
+        | [n, e, b] =>
+          match Driver.parseInt? n, Driver.parseHex? b with
+          | some n, some b => some ⟨n, e, b, true⟩
+          | _, _ => none
+        | _ => none
+      (judgeEncAll f m size err nsz ncan fo).toString
+    | _, _, _, _, _ => "bad-op"
+  | "rt" :: c :: _cap :: r, "rt" :: n :: err :: rest =>
+    match parseCoder? c, parseMsg? r, Driver.parseInt? n with
+    | some f, some (m, _), some n =>
+      match splitBar rest with
+      | [[wire], "dec" :: d] =>
+        match Driver.parseHex? wire, parseDecObs? d with
+        | some w, some d => (judgeRoundTrip f m n err w (some d)).toString
+        | _, _ => "bad-op"
+      | [[wire]] =>
+        match Driver.parseHex? wire with
+        | some w => (judgeRoundTrip f m n err w none).toString
+        | none => "bad-op"
+      | _ => "bad-op"
+    | _, _, _ => "bad-op"
+  | "pool" :: c :: _kind :: _cap :: r, "pool" :: err :: rest =>
+    match parseCoder? c, parseMsg? r with
+    | some f, some (m, _) =>
+      match splitBar rest with
+      | [[wire], "dec" :: d] =>
+        match Driver.parseHex? wire, parseDecObs? d with
+        | some w, some d => (judgeRoundTrip f m (w.length : Int) err w (some d)).toString
+        | _, _ => "bad-op"
+      | [[wire]] =>
+        match Driver.parseHex? wire with
+        | some w => (judgeRoundTrip f m (if err = "ok" then (w.length : Int) else -1) err w none).toString
+        | none => "bad-op"
+      | _ => "bad-op"
+    | _, _ => "bad-op"
+  | _, _ => "bad-op"
+
+def splitArrow (fields : List String) : List String × List String :=
+  let rec go : List String → List String → List String × List String
+    | [], acc => (acc.reverse, [])
+    | "=>" :: r, acc => (acc.reverse, r)
+    | x :: r, acc => go r (x :: acc)
+  go fields []
+
+def run (mode : String) : IO UInt32 := do
+  let stdin ← IO.getStdin
+  let stdout ← IO.getStdout
+  Driver.forLines stdin fun line => do
+    let f := Driver.words line
+    if mode == "model" then stdout.putStrLn (modelLine f)
+    else
+      let (i, o) := splitArrow f
+      stdout.putStrLn (judgeLine i o)
+  stdout.flush
+  return 0
+
+end Driver.C01
+
+def main (args : List String) : IO UInt32 :=
+  match args with
+  | [mode] => Driver.C01.run mode
+  | _ => do IO.eprintln "usage: drv_c01 model|judge"; return 2
